@@ -119,15 +119,43 @@ def fam_of(t):
     return FAM[op]
 
 
+SRC_KEYS = ("op", "kind", "keys", "vals", "mask", "tf", "oo", "sort", "emb", "kenc", "cfg", "W", "minp", "n", "idx", "family")
+
+
 def dtype_traces(traces):
     out = []
     for t in traces:
         if t.get("out") == "ok" and "idt" in t and "odt" in t:
-            d = {"fam": fam_of(t), "idt": t["idt"], "odt": t["odt"], "src": {k: t.get(k) for k in ("op", "kind", "emb", "cfg", "keys", "vals", "tf", "W", "n")}}
+            d = {"fam": fam_of(t), "idt": t["idt"], "odt": t["odt"], "src": {k: t.get(k) for k in SRC_KEYS}}
             if t["idt"]["k"] in "mM" and "res" in t:
                 d["exact"] = int(not any(x == -998 or x == [-998, 1] for x in t["res"]))
             out.append(d)
     return out
+
+
+FAMILIES = {"reduce": (api.run_reduce, "Trace_GBCore", lambda: C01.trace_cfg()),
+            "cum": (rowwise.run_cum, "Trace_GBCumulative", lambda: C08.TRACE_CFG.format(diag="FALSE")),
+            "roll": (rowwise.run_roll, "Trace_GBRolling", lambda: C09.trace_cfg()),
+            "select": (rowwise.run_select, "Trace_GBSelect", lambda: C15.TRACE_CFG)}
+
+
+def case_of(t):
+    """the call that produced a (numeric) trace."""
+    fam = t.get("family")
+    cfg = {k: v for k, v in (t.get("cfg") or {}).items() if v is not None}
+    if fam == "reduce":
+        c = {k: t[k] for k in ("op", "keys", "vals", "mask", "tf", "oo", "sort", "emb", "kenc")}
+    elif fam == "cum":
+        c = dict(op=t["op"], keys=t["keys"], vals=t["vals"], emb=t["emb"], mask=t.get("mask") or {"k": "none"})
+    elif fam == "roll":
+        c = dict(op=t["op"], W=t["W"], minp=t["minp"], keys=t["keys"], vals=t["vals"], emb=t["emb"], mask=t.get("mask") or {"k": "none"})
+    else:
+        c = dict(kind=t["kind"], n=t["n"], keys=t["keys"], idx=t["idx"])
+    c.update(cfg)
+    for k in ("kcont", "vcont"):
+        if isinstance(c.get(k), list):
+            c[k] = tuple(c[k])
+    return fam, c
 
 
 def run(tier):
@@ -180,7 +208,22 @@ def run(tier):
 
 def replay(path):
     t = json.load(open(path))
-    print("replay of C12 findings: re-run ./check C12 --tier quick (cases are deterministic in the seed); trace:")
-    print(json.dumps(t)[:2000])
+    src = t["src"] if "fam" in t else t
+    fam, case = case_of(src)
+    fn, tmod, cfg = FAMILIES[fam]
+    sched.install()
+    tr = fn(case)
+    tr["family"] = fam
+    print(json.dumps(tr)[:2000])
+    acc, _, _ = tlc.validate(tmod, [tr], "C12_replay_num", cfg())
+    ok = 0 in acc
+    dts = dtype_traces([tr])
+    if dts:
+        acc2, _, _ = tlc.validate("Trace_GBDtype", dts, "C12_replay_dtype", TRACE_CFG)
+        ok = ok and 0 in acc2
+        print("dtype trace:", json.dumps({k: dts[0][k] for k in ("fam", "idt", "odt")}))
+    if ok:
+        print("replay: trace accepted by the specification")
+        return 0
     print(f"VIOLATION property=C12 replay={path}")
     return 1
